@@ -1350,6 +1350,7 @@ impl<'a> Sem<'a> {
     fn parent_list(&mut self) -> Vec<String> {
         let mut parents = Vec::new();
         let hidden_mark = self.hidden.len();
+        let fields_mark = self.rec_fields.len();
         if self.classes.is_empty() || self.rng.chance(1, 3) {
             return parents;
         }
@@ -1370,12 +1371,22 @@ impl<'a> Sem<'a> {
             self.w(if i == 0 || parents.is_empty() { " : " } else { ", " });
             self.class_ref(&c, 1, false);
             // the fields of a parent are in scope in the argument lists of the parents after it
-            // (TableGen adds each superclass before it parses the next): no expectation on those names
-            let names: Vec<String> = self.class(&c).map(|ci| ci.fields.keys().cloned().collect()).unwrap_or_default();
-            self.hidden.extend(names);
+            // (TableGen adds each superclass before it parses the next): they are visible there as
+            // fields; a name that also names an outer variable is not mentioned (which of the two
+            // wins differs between TableGen versions), nor is a field without a value
+            let fs: Vec<(String, Ty, usize)> = self.class(&c).map(|ci| ci.fields.iter().map(|(n, (t, d))| (n.clone(), t.clone(), *d)).collect()).unwrap_or_default();
+            for (n, t, d) in fs {
+                let collides = self.scopes.iter().flatten().any(|v| v.name == n) || self.rec_targs.iter().any(|x| x.0 == n);
+                if collides || self.uninit.contains(&d) || !self.on("earlier-parent-fields") {
+                    self.hidden.push(n);
+                } else if !self.rec_fields.iter().any(|f| f.0 == n) {
+                    self.rec_fields.push((n, t, d));
+                }
+            }
             parents.push(c);
         }
         self.hidden.truncate(hidden_mark);
+        self.rec_fields.truncate(fields_mark);
         parents
     }
 
